@@ -547,6 +547,16 @@ static std::string forth_run_T(const JV& st) {
     std::string r = "{\"act\":" + jstr(act);
     try {
       ak::util::ForthError err = ak::util::ForthError::none;
+      if (!first && (act == "run" || act == "begin" || act == "stepall" || act == "runall") && st.HasMember("inputs")) {
+        // a ForthInputBuffer carries its read position: every new run gets fresh buffers over the same bytes (what the
+        // Python binding does when it wraps the caller's arrays for each run)
+        for (auto& m : st["inputs"].GetObject()) {
+          int64_t n = (int64_t)m.value.Size();
+          std::shared_ptr<void> ptr(new uint8_t[(size_t)(n == 0 ? 1 : n)], std::default_delete<uint8_t[]>());
+          for (int64_t i = 0; i < n; i++) reinterpret_cast<uint8_t*>(ptr.get())[i] = (uint8_t)m.value[(rj::SizeType)i].GetInt64();
+          inputs[m.name.GetString()] = std::make_shared<ak::ForthInputBuffer>(ptr, 0, n);
+        }
+      }
       if (act == "run") err = vm->run(inputs);
       else if (act == "begin") vm->begin(inputs);
       else if (act == "step") err = vm->step();
